@@ -123,22 +123,33 @@ class Engine:
 
     # -- obligations
     def decide(self, negated_goal, timeout_ms=None):
-        """returns ('unsat'|'sat'|'unknown', model_or_None). unsat == goal holds for all values on this path."""
+        """returns ('unsat'|'sat'|'unknown', model_or_None). unsat == goal holds for all values on this path.
+        Escalation (every stage asks the same question; only 'unsat' from the reduced stage is used, which is sound because dropping
+        assumptions can only make the negated goal easier to satisfy):
+          1. incremental solver, short timeout   2. fresh solver on the cone of influence of the goal (assumptions sharing symbols, transitively)
+          3. fresh solver on everything, full timeout"""
         self.stats.queries += 1
         t0 = time.time()
+        T = timeout_ms or self.timeout_ms
         self.solver.push()
-        if timeout_ms:
-            self.solver.set('timeout', timeout_ms)
+        self.solver.set('timeout', min(T, 3000))
         self.solver.add(negated_goal)
         r = self.solver.check()
         model = self.solver.model() if r == z3.sat else None
         self.solver.pop()
-        if timeout_ms:
-            self.solver.set('timeout', self.timeout_ms)
+        self.solver.set('timeout', self.timeout_ms)
         if r == z3.unknown:
-            # second opinion: fresh non-incremental solver (tactic pipeline incl. nlsat)
+            coi = self._cone(negated_goal)
+            if len(coi) < len(self.constraints):
+                s1 = z3.Solver()
+                s1.set('timeout', min(T, 20000))
+                s1.add(coi)
+                s1.add(negated_goal)
+                if s1.check() == z3.unsat:
+                    r = z3.unsat
+        if r == z3.unknown:
             s2 = z3.Solver()
-            s2.set('timeout', timeout_ms or self.timeout_ms)
+            s2.set('timeout', T)
             s2.add(self.constraints)
             s2.add(negated_goal)
             r = s2.check()
@@ -147,6 +158,41 @@ class Engine:
         rs = str(r)
         setattr(self.stats, rs, getattr(self.stats, rs) + 1)
         return rs, model
+
+    def _cone(self, goal):
+        if not hasattr(self, '_cvars'):
+            self._cvars = {}
+        def vars_of(e):
+            out, seen, stack = set(), set(), [e]
+            while stack:
+                x = stack.pop()
+                i = x.get_id()
+                if i in seen:
+                    continue
+                seen.add(i)
+                if z3.is_const(x) and x.decl().kind() == z3.Z3_OP_UNINTERPRETED:
+                    out.add(i)
+                else:
+                    stack.extend(x.children())
+            return out
+        cv = []
+        for c in self.constraints:
+            i = c.get_id()
+            if i not in self._cvars:
+                self._cvars[i] = vars_of(c)
+            cv.append(self._cvars[i])
+        live = vars_of(goal)
+        keep = [False] * len(cv)
+        changed = True
+        while changed:
+            changed = False
+            for k, v in enumerate(cv):
+                if not keep[k] and v & live:
+                    keep[k] = True
+                    if not v <= live:
+                        live |= v
+                    changed = True
+        return [c for c, k in zip(self.constraints, keep) if k]
 
 
 ENG: Engine | None = None
